@@ -61,6 +61,17 @@ package confchange
 
 //@ pred trk_only_members(cfg tracker.Config, trk tracker.ProgressMap) := forall id uint64 :: has(trk, id) ==> isMember(cfg, id)
 
+//@ -- progress records across a configuration change (C13/C16): the working copy carries every field of a remaining peer's record over
+//@ -- (sharing its inflight window), a new peer starts from the initial record, and no record is shared between two ids
+//@ pred progress_carried(a *tracker.Progress, b *tracker.Progress) := a.Match == b.Match && a.Next == b.Next && a.State == b.State && a.PendingSnapshot == b.PendingSnapshot
+//@     && a.RecentActive == b.RecentActive && a.MsgAppFlowPaused == b.MsgAppFlowPaused && a.sentCommit == b.sentCommit && a.Inflights == b.Inflights
+//@ pred progress_initial(p *tracker.Progress, c Changer) := p.Match == 0 && p.Next == max(c.LastIndex, 1) + 0 && p.State == 0 && p.PendingSnapshot == 0 && p.RecentActive
+//@     && !p.MsgAppFlowPaused && p.sentCommit == 0 && wf_inflights(p.Inflights) && p.Inflights.count == 0 && p.Inflights.bytes == 0
+//@     && p.Inflights.size == c.Tracker.MaxInflight && p.Inflights.maxBytes == c.Tracker.MaxInflightBytes
+//@ pred records_distinct(trk tracker.ProgressMap) := forall a uint64, b uint64 :: {has(trk, a), has(trk, b)} has(trk, a) && has(trk, b) && a != b ==> trk[a] != trk[b]
+//@ pred core_same(p *tracker.Progress) := p.Match == old(p.Match) && p.Next == old(p.Next) && p.Inflights == old(p.Inflights) && p.State == old(p.State)
+//@     && p.PendingSnapshot == old(p.PendingSnapshot) && p.RecentActive == old(p.RecentActive) && p.MsgAppFlowPaused == old(p.MsgAppFlowPaused) && p.sentCommit == old(p.sentCommit)
+
 //@ func confchange.checkAndReturn [C13]
 //@   frame elems quorum.MajorityConfig:
 //@   requires #progress-nonnil [C14] progress_values_nonnil(trk)
@@ -79,7 +90,8 @@ package confchange
 //@        && sameSet(result0.Learners, c.Tracker.Learners) && sameSet(result0.LearnersNext, c.Tracker.LearnersNext) && !result0.AutoLeave
 //@   ensures #copy-progress [C13] result2 == nil ==> result1 != nil && fresh(result1) && (forall id uint64 :: has(result1, id) == has(c.Tracker.Progress, id))
 //@        && (forall id uint64 :: has(result1, id) ==> result1[id] != nil && fresh(result1[id]) && result1[id].IsLearner == c.Tracker.Progress[id].IsLearner
-//@              && result1[id].Match == c.Tracker.Progress[id].Match && result1[id].Next == c.Tracker.Progress[id].Next && result1[id].Inflights == c.Tracker.Progress[id].Inflights)
+//@              && progress_carried(result1[id], c.Tracker.Progress[id]))
+//@   ensures #copy-distinct [C13] result2 == nil ==> records_distinct(result1)
 //@   ensures #fresh-sets [C13] result2 == nil ==> (result0.Voters[0] != nil ==> fresh(result0.Voters[0])) && (result0.Voters[1] != nil ==> fresh(result0.Voters[1]))
 //@        && (result0.Learners != nil ==> fresh(result0.Learners)) && (result0.LearnersNext != nil ==> fresh(result0.LearnersNext))
 //@   ensures #checked [C13] result2 == nil ==> cfg_inv(result0, result1)
@@ -89,7 +101,8 @@ package confchange
 //@   ensures #input-untouched [C13] allocframe("M$map[uint64]struct{}", "M$map[uint64]*tracker.Progress", "F$tracker.Progress", "F$tracker.Inflights")
 //@   loop 1 invariant #copying trk != nil && fresh(trk) && len(trk) == iter && (forall id uint64 :: has(trk, id) <==> seen(id))
 //@        && (forall id uint64 :: has(trk, id) ==> trk[id] != nil && fresh(trk[id]) && trk[id].IsLearner == c.Tracker.Progress[id].IsLearner
-//@              && trk[id].Match == c.Tracker.Progress[id].Match && trk[id].Next == c.Tracker.Progress[id].Next && trk[id].Inflights == c.Tracker.Progress[id].Inflights)
+//@              && progress_carried(trk[id], c.Tracker.Progress[id]))
+//@   loop 1 invariant #distinct records_distinct(trk)
 //@   loop 1 invariant #input-untouched allocframe("M$map[uint64]struct{}", "M$map[uint64]*tracker.Progress", "F$tracker.Progress")
 
 //@ -- ------------------------------------------------------------------------------------------
@@ -130,6 +143,7 @@ package confchange
 //@   ensures #added [C13] has(trk, id) && trk[id] != nil && fresh(trk[id]) && trk[id].IsLearner == isLearner && trk[id].Match == 0 && trk[id].Next == max(c.LastIndex, 1) + 0
 //@        && trk[id].RecentActive && (isLearner ? has(cfg.Learners, id) : has(cfg.Voters[0], id))
 //@   ensures #flow-control-limits [C16] fresh(trk[id].Inflights) && trk[id].Inflights.size == c.Tracker.MaxInflight && trk[id].Inflights.maxBytes == c.Tracker.MaxInflightBytes
+//@   ensures #initial [C13 C16] progress_initial(trk[id], c)
 //@   ensures #others-kept [C13] (forall k uint64 :: k != id ==> has(cfg.Voters[0], k) == old(has(cfg.Voters[0], k)) && has(cfg.Learners, k) == old(has(cfg.Learners, k))
 //@        && has(trk, k) == old(has(trk, k)) && trk[k] == old(trk[k]))
 //@        && (forall k uint64 :: has(cfg.Voters[1], k) == old(has(cfg.Voters[1], k)) && has(cfg.LearnersNext, k) == old(has(cfg.LearnersNext, k)))
@@ -147,7 +161,8 @@ package confchange
 //@   ensures #voter [C13] has(trk, id) && has(cfg.Voters[0], id) && !has(cfg.Learners, id) && !has(cfg.LearnersNext, id) && !trk[id].IsLearner
 //@        && (old(has(trk, id)) ==> trk[id] == old(trk[id]))
 //@   ensures #new-record-fresh [C13] !old(has(trk, id)) ==> fresh(trk[id])
-//@   ensures #core-kept [C13] old(has(trk, id)) ==> trk[id].Match == old(trk[id].Match) && trk[id].Next == old(trk[id].Next) && trk[id].Inflights == old(trk[id].Inflights) && trk[id].State == old(trk[id].State)
+//@   ensures #core-kept [C13 C16] old(has(trk, id)) ==> core_same(trk[id])
+//@   ensures #new-record-initial [C13 C16] !old(has(trk, id)) ==> progress_initial(trk[id], c)
 //@   ensures #others-kept [C13] others_kept(cfg, trk, id)
 //@   ensures #frame [C13] helper_frame(cfg, trk)
 //@   ensures #wf work_ok(cfg, trk)
@@ -164,7 +179,8 @@ package confchange
 //@   ensures #already-learner-noop [C13] old(has(trk, id) && trk[id].IsLearner) ==> has(cfg.Voters[0], id) == old(has(cfg.Voters[0], id)) && has(cfg.Learners, id) == old(has(cfg.Learners, id))
 //@        && has(cfg.LearnersNext, id) == old(has(cfg.LearnersNext, id)) && cfg.Learners == old(cfg.Learners) && cfg.LearnersNext == old(cfg.LearnersNext)
 //@   ensures #new-record-fresh [C13] !old(has(trk, id)) ==> fresh(trk[id])
-//@   ensures #core-kept [C13] old(has(trk, id)) ==> trk[id].Match == old(trk[id].Match) && trk[id].Next == old(trk[id].Next) && trk[id].Inflights == old(trk[id].Inflights) && trk[id].State == old(trk[id].State)
+//@   ensures #core-kept [C13 C16] old(has(trk, id)) ==> core_same(trk[id])
+//@   ensures #new-record-initial [C13 C16] !old(has(trk, id)) ==> progress_initial(trk[id], c)
 //@   ensures #others-kept [C13] others_kept(cfg, trk, id)
 //@   ensures #frame [C13] helper_frame(cfg, trk)
 //@   ensures #wf work_ok(cfg, trk)
@@ -174,7 +190,7 @@ package confchange
 //@ -- only records that were in the map at entry (or are new) are written, and only their IsLearner flag
 //@ pred progress_frame(trk tracker.ProgressMap) := forall o *tracker.Progress :: {o.IsLearner} wasallocated(o) && (forall k uint64 :: old(has(trk, k)) ==> old(trk[k]) != o)
 //@        ==> o.IsLearner == old(o.IsLearner)
-//@ pred progress_core_kept() := forall o *tracker.Progress :: {o.Match} wasallocated(o) ==> o.Match == old(o.Match) && o.Next == old(o.Next) && o.Inflights == old(o.Inflights) && o.State == old(o.State)
+//@ pred progress_core_kept() := forall o *tracker.Progress :: {o.Match} wasallocated(o) ==> core_same(o)
 
 //@ func confchange.Changer.apply [C13 C14]
 //@   requires work_ok(cfg, trk)
@@ -182,7 +198,10 @@ package confchange
 //@   frame tracker.Inflights:
 //@   ensures #a-voter-remains [C13] result == nil ==> len(cfg.Voters[0]) > 0
 //@   ensures #outgoing-kept [C13] (forall k uint64 :: has(cfg.Voters[1], k) == old(has(cfg.Voters[1], k))) && cfg.Voters[0] == old(cfg.Voters[0]) && cfg.Voters[1] == old(cfg.Voters[1]) && cfg.AutoLeave == old(cfg.AutoLeave)
+//@   requires #records-distinct records_distinct(trk)
 //@   ensures #records [C13] records_stay(trk) && progress_frame(trk) && progress_core_kept()
+//@   ensures #records-initial [C13 C16] forall k uint64 :: has(trk, k) && fresh(trk[k]) ==> progress_initial(trk[k], c)
+//@   ensures #records-distinct [C13] records_distinct(trk)
 //@   ensures #frame [C13] helper_frame(cfg, trk)
 //@   ensures #wf work_ok(cfg, trk)
 //@   loop 1 invariant #state 0 <= iter && iter <= len(ccs) && work_ok(cfg, trk) && (forall k uint64 :: has(cfg.Voters[1], k) == old(has(cfg.Voters[1], k)))
@@ -190,6 +209,8 @@ package confchange
 //@   loop 1 invariant #records-stay records_stay(trk)
 //@   loop 1 invariant #records-frame progress_frame(trk)
 //@   loop 1 invariant #records-core progress_core_kept()
+//@   loop 1 invariant #records-initial forall k uint64 :: has(trk, k) && fresh(trk[k]) ==> progress_initial(trk[k], c)
+//@   loop 1 invariant #records-distinct records_distinct(trk)
 //@   loop 1 invariant #frame frameexcept("M$map[uint64]struct{}", old(cfg.Voters[0]), old(cfg.Learners), old(cfg.LearnersNext)) && frameexcept("M$map[uint64]*tracker.Progress", trk)
 //@        && frameexcept("F$tracker.Inflights")
 
@@ -210,14 +231,17 @@ package confchange
 //@ pred valid_input(c Changer) := c.Tracker.Voters[0] != nil && c.Tracker.Progress != nil && progress_values_nonnil(c.Tracker.Progress) && c.Tracker.MaxInflight >= 1
 //@     && (forall id uint64 :: has(c.Tracker.Progress, id) ==> has(c.Tracker.Voters[0], id) || has(c.Tracker.Voters[1], id) || has(c.Tracker.Learners, id) || has(c.Tracker.LearnersNext, id))
 //@ pred input_untouched() := allocframe("M$map[uint64]struct{}", "M$map[uint64]*tracker.Progress", "F$tracker.Progress", "F$tracker.Inflights")
-//@ pred cfg_result(cfg tracker.Config, trk tracker.ProgressMap) := cfg_inv(cfg, trk) && trk_only_members(cfg, trk) && progress_values_nonnil(trk) && cfg.Voters[0] != nil
+//@ pred cfg_result(cfg tracker.Config, trk tracker.ProgressMap) := cfg_inv(cfg, trk) && trk_only_members(cfg, trk) && trk != nil && progress_values_nonnil(trk) && cfg.Voters[0] != nil
 
+//@ pred record_ok(p *tracker.Progress, c Changer, k uint64) := p != nil && fresh(p) && ((has(c.Tracker.Progress, k) && progress_carried(p, c.Tracker.Progress[k])) || progress_initial(p, c))
+//@ pred records_result(trk tracker.ProgressMap, c Changer) := (forall k uint64 :: {has(trk, k)} has(trk, k) ==> record_ok(trk[k], c, k)) && records_distinct(trk)
 //@ pred differs(a quorum.MajorityConfig, b quorum.MajorityConfig, id uint64) := has(a, id) != has(b, id)
 //@ func confchange.Changer.Simple [C13 C14]
 //@   requires #valid-input [C14] valid_input(c)
 //@   -- symdiff <= 1 in witness form: any two ids on which the old and the new incoming voter sets disagree are the same id
 //@   ensures #at-most-one-voter-changed [C13] result2 == nil ==> (forall a uint64, b uint64 :: differs(c.Tracker.Voters[0], result0.Voters[0], a) && differs(c.Tracker.Voters[0], result0.Voters[0], b) ==> a == b)
 //@   ensures #invariants [C13] result2 == nil ==> cfg_result(result0, result1)
+//@   ensures #records-carried-or-initial [C13 C16] result2 == nil ==> records_result(result1, c)
 //@   ensures #a-voter-remains [C13] result2 == nil ==> len(result0.Voters[0]) > 0
 //@   ensures #stays-simple [C13] result2 == nil ==> len(result0.Voters[1]) == 0
 //@   ensures #rejected-empty [C13] result2 != nil ==> len(result1) == 0 && result0.Voters[0] == nil && result0.Voters[1] == nil && result0.Learners == nil && result0.LearnersNext == nil
@@ -230,6 +254,7 @@ package confchange
 //@   requires #valid-input [C14] valid_input(c)
 //@   frame elems quorum.MajorityConfig:
 //@   ensures #invariants [C13] result2 == nil ==> cfg_result(result0, result1)
+//@   ensures #records-carried-or-initial [C13 C16] result2 == nil ==> records_result(result1, c)
 //@   ensures #a-voter-remains [C13] result2 == nil ==> len(result0.Voters[0]) > 0
 //@   ensures #joint [C13] result2 == nil ==> len(result0.Voters[1]) > 0 && sameSet(result0.Voters[1], c.Tracker.Voters[0]) && result0.AutoLeave == autoLeave
 //@   ensures #only-from-simple [C13] result2 == nil ==> len(c.Tracker.Voters[1]) == 0
@@ -247,6 +272,7 @@ package confchange
 //@   loop 1 invariant #trk trk != nil && fresh(trk) && progress_values_nonnil(trk) && (forall id uint64 :: has(trk, id) == has(c.Tracker.Progress, id))
 //@        && (forall id uint64 :: has(trk, id) ==> fresh(trk[id]))
 //@        && (forall id uint64 :: has(trk, id) <==> has(cfg.Voters[0], id) || has(cfg.Learners, id) || has(cfg.LearnersNext, id))
+//@   loop 1 invariant #records records_result(trk, c) && (forall id uint64 :: has(trk, id) ==> progress_carried(trk[id], c.Tracker.Progress[id]))
 //@   loop 1 invariant #input-untouched allocframe("M$map[uint64]struct{}", "M$map[uint64]*tracker.Progress", "F$tracker.Progress", "F$tracker.Inflights")
 
 //@ func confchange.Changer.LeaveJoint [C13 C14]
@@ -254,6 +280,7 @@ package confchange
 //@   requires #has-voter [C14] len(c.Tracker.Voters[0]) > 0
 //@   frame elems quorum.MajorityConfig:
 //@   ensures #invariants [C13] result2 == nil ==> cfg_result(result0, result1)
+//@   ensures #records-carried-or-initial [C13 C16] result2 == nil ==> records_result(result1, c)
 //@   ensures #a-voter-remains [C13] result2 == nil ==> len(result0.Voters[0]) > 0 && sameSet(result0.Voters[0], c.Tracker.Voters[0])
 //@   ensures #left [C13] result2 == nil ==> result0.Voters[1] == nil && result0.LearnersNext == nil && !result0.AutoLeave && len(c.Tracker.Voters[1]) > 0
 //@   -- the staged learners become learners (and are marked), everything that is neither a voter nor a learner any more loses its record
@@ -269,6 +296,7 @@ package confchange
 //@        && sameSet(cfg.Voters[0], c.Tracker.Voters[0]) && sameSet(cfg.Voters[1], c.Tracker.Voters[1]) && sameSet(cfg.LearnersNext, c.Tracker.LearnersNext)
 //@   loop 1 invariant #moved forall id uint64 :: has(cfg.Learners, id) <==> has(c.Tracker.Learners, id) || seen(id)
 //@   loop 1 invariant #marked forall id uint64 :: has(cfg.Learners, id) ==> has(trk, id) && trk[id].IsLearner
+//@   loop 1 invariant #records records_result(trk, c)
 //@   loop 1 invariant #trk trk != nil && fresh(trk) && progress_values_nonnil(trk) && (forall id uint64 :: has(trk, id) == has(c.Tracker.Progress, id)) && (forall id uint64 :: has(trk, id) ==> fresh(trk[id]))
 //@        && (forall id uint64 :: has(trk, id) <==> has(cfg.Voters[0], id) || has(cfg.Voters[1], id) || has(cfg.Learners, id) || has(cfg.LearnersNext, id))
 //@        && (forall id uint64 :: has(cfg.LearnersNext, id) ==> has(cfg.Voters[1], id))
@@ -276,6 +304,7 @@ package confchange
 //@   loop 2 invariant #sets cfg.Voters[0] != nil && cfg.Voters[1] != nil && cfg.LearnersNext == nil && sameSet(cfg.Voters[0], c.Tracker.Voters[0]) && sameSet(cfg.Voters[1], c.Tracker.Voters[1])
 //@        && (forall id uint64 :: has(cfg.Learners, id) <==> has(c.Tracker.Learners, id) || has(c.Tracker.LearnersNext, id))
 //@   loop 2 invariant #marked forall id uint64 :: has(cfg.Learners, id) ==> has(trk, id) && trk[id].IsLearner
+//@   loop 2 invariant #records records_result(trk, c)
 //@   loop 2 invariant #trk trk != nil && fresh(trk) && progress_values_nonnil(trk)
 //@        && (forall id uint64 :: has(trk, id) ==> has(cfg.Voters[0], id) || has(cfg.Learners, id) || (has(cfg.Voters[1], id) && !seen(id)))
 //@        && (forall id uint64 :: has(cfg.Voters[0], id) || has(cfg.Learners, id) ==> has(trk, id))
